@@ -5,6 +5,8 @@ mod logger;
 mod meta_text;
 mod server;
 mod util;
+#[cfg(feature = "verif-hooks")]
+pub mod verif_api;
 
 pub use clap::Parser;
 pub use cmd_args::*;
